@@ -72,17 +72,45 @@ def canon_cond(test: ast.AST, pol: bool) -> Tuple[str, bool]:
 
 
 class Sem:
-    def __init__(self, idx: Optional[Index], fi):
+    def __init__(self, idx: Optional[Index], fi, caller: Optional[Tuple["Sem", ast.Call]] = None):
+        """`caller` = (Sem of the calling function, the call node) pins the context in which a helper is analysed (needed when
+        the helper has several call sites)."""
         from .rules.common import fctx
         self.idx = idx
         self.fi = fi if isinstance(fi, FunctionInfo) else None
         self.node = getattr(fi, "node", fi)
         self.cfg, self.du, self.pm = fctx(fi)
         self._iter_ids: Dict[int, str] = {}
+        # locals whose object is modified in place after its definition (x[i] = …, x.append(…), x += … on a list/array): their
+        # defining expression does not describe their value, so they are never substituted
+        self._mutated: Set[str] = set()
+        for n in ast.walk(self.node):
+            if isinstance(n, ast.Subscript) and isinstance(n.ctx, (ast.Store, ast.Del)):
+                b_ = n.value
+                while isinstance(b_, ast.Subscript):
+                    b_ = b_.value
+                if isinstance(b_, ast.Name):
+                    self._mutated.add(b_.id)
+            elif isinstance(n, ast.Call) and isinstance(n.func, ast.Attribute) and isinstance(n.func.value, ast.Name) \
+                    and n.func.attr in ("append", "extend", "insert", "sort", "update", "add", "pop", "remove", "clear", "setdefault", "fill"):
+                self._mutated.add(n.func.value.id)
         self._caller: Optional[Tuple["Sem", ast.Call, Dict[str, ast.AST]]] = None
         self._caller_done = False
         self.subst_consts = True   # substitute module-level literal constants
         self.inline_helpers = True  # β-reduce calls of private single-expression helpers of the same module
+        if caller is not None:
+            self._caller_done = True
+            csem, call = caller
+            params = list(self.fi.params) if self.fi is not None else []
+            if isinstance(call.func, ast.Attribute) and params and params[0] in ("self", "cls"):
+                params = params[1:]
+            b: Dict[str, ast.AST] = {}
+            if not any(isinstance(a, ast.Starred) for a in call.args) and not any(k.arg is None for k in call.keywords):
+                for p_, a in zip(params, call.args):
+                    b[p_] = a
+                for k in call.keywords:
+                    b[k.arg] = k.value
+                self._caller = (csem, call, b)
 
     # ------------------------------------------------------------------ caller binding for private helpers
     def _bind_caller(self) -> None:
@@ -194,6 +222,8 @@ class Sem:
                 d = ds[0]
                 key = (d.name, d.node)
                 if key in busy:
+                    return e
+                if e.id in self._mutated and d.kind in ("assign", "aug", "unpack"):
                     return e
                 if d.kind == "assign" and d.value is not None:
                     if isinstance(d.value, ast.Dict):
@@ -535,3 +565,20 @@ def built_container(sem: Sem, name_or_expr, at: int) -> Optional[Built]:
     if isinstance(e, (ast.ListComp, ast.GeneratorExp)):
         return Built("list", None, e.elt, [(g.target, g.iter) for g in e.generators], [c for g in e.generators for c in g.ifs], e)
     return None
+
+
+def helper_calls(idx: Index, S: Sem) -> List[Tuple[FunctionInfo, ast.Call, Sem]]:
+    """Calls in S's function to private helpers of the same module, each with a Sem of the helper pinned to that call site."""
+    out = []
+    if S.fi is None:
+        return out
+    m = S.fi.module
+    owners = {ff.name: ff for ff in list(m.functions.values()) + [mm for c in m.classes.values() for mm in c.methods.values()]}
+    for c in ast.walk(S.node):
+        if isinstance(c, ast.Call):
+            nm = c.func.id if isinstance(c.func, ast.Name) else c.func.attr if isinstance(c.func, ast.Attribute) and isinstance(c.func.value, ast.Name) \
+                and c.func.value.id in ("self", "cls") else None
+            g = owners.get(nm) if nm else None
+            if g is not None and g is not S.fi and nm.startswith("_") and not (nm.startswith("__") and nm.endswith("__")):
+                out.append((g, c, Sem(idx, g, caller=(S, c))))
+    return out
